@@ -9,7 +9,10 @@ import importlib  # noqa: E402
 import json  # noqa: E402
 import os  # noqa: E402
 import resource  # noqa: E402
+import time  # noqa: E402
 import traceback  # noqa: E402
+
+T0 = time.time()
 
 
 class Ctx:
@@ -77,6 +80,7 @@ def main():
             ctx.agg.notes.append({"line_coverage_of_repo_in_last_shard": rep})
         except Exception as e:
             ctx.agg.notes.append({"coverage_error": repr(e)[:100]})
+    ctx.agg.hist("shard_wall_seconds_by_environment", os.environ.get("VERIF_ENVIRONMENT", "default"), int(time.time() - T0))
     ctx.agg.hist("evaluations_by_environment", os.environ.get("VERIF_ENVIRONMENT", "default"), ctx.agg.evaluations)
     if monitor.RECORDER_HITS:
         ctx.agg.notes.append({"recorder_hits": monitor.RECORDER_HITS[:5]})
